@@ -106,7 +106,7 @@ Theorem tensor_train_realised_rank X rank cores :
   end.
 Proof.
   unfold tensor_train, realised_tt_rank. destruct (validate_tt_rank (ndim X) rank) as [rk|]; [|discriminate].
-  cbn [rbind]. intros H. now rewrite (chain_loop_realised _ _ _ _ _ _ H).
+  cbn [rbind]. destruct (ndim X <=? 1); [discriminate|]. intros H. now rewrite (chain_loop_realised _ _ _ _ _ _ H).
 Qed.
 
 End Loop.
